@@ -136,7 +136,7 @@ func (ft *FT) buildQueryOpt(o *Obl, axs []axTerm, slice bool) string {
 	}
 	var q bytes.Buffer
 	q.WriteString("(set-option :produce-models true)\n(set-logic ALL)\n")
-	for _, d := range ft.g.reg.Decls() {
+	for _, d := range ft.g.pruneDecls(mid.String() + body.String() + strings.Join(ft.g.sfDecls, "\n") + strings.Join(streqDecl, "\n")) {
 		q.WriteString(d + "\n")
 	}
 	for _, d := range streqDecl {
@@ -145,7 +145,7 @@ func (ft *FT) buildQueryOpt(o *Obl, axs []axTerm, slice bool) string {
 	for _, d := range ft.g.sfDecls {
 		q.WriteString(d + "\n")
 	}
-	for _, d := range ft.g.literalFacts(mid.String() + body.String() + strings.Join(ft.g.reg.Decls(), "\n")) {
+	for _, d := range ft.g.literalFacts(mid.String() + body.String() + strings.Join(ft.g.pruneDecls(mid.String()+body.String()+strings.Join(ft.g.sfDecls, "\n")+strings.Join(streqDecl, "\n")), "\n")) {
 		q.WriteString(d + "\n")
 	}
 	q.Write(mid.Bytes())
@@ -357,4 +357,115 @@ func (ft *FT) sliceFacts(o *Obl) []string {
 		}
 	}
 	return out
+}
+
+var tokRe = regexp.MustCompile(`[A-Za-z_][A-Za-z0-9_.]*`)
+
+type declInfo struct {
+	text   string
+	defs   []string
+	refs   []string
+	assert bool
+}
+
+// pruneDecls keeps the sort/function declarations and theory axioms that the query can reach.
+var pruneMu sync.Mutex
+
+func (g *Gen) pruneDecls(query string) []string {
+	pruneMu.Lock()
+	defer pruneMu.Unlock()
+	decls := g.reg.Decls()
+	if len(g.declInfos) != len(decls) {
+		g.declInfos = nil
+		g.declNames = map[string]bool{}
+		for _, d := range decls {
+			di := declInfo{text: d, assert: strings.HasPrefix(d, "(assert")}
+			toks := tokRe.FindAllString(d, -1)
+			switch {
+			case strings.HasPrefix(d, "(declare-fun"), strings.HasPrefix(d, "(declare-const"), strings.HasPrefix(d, "(declare-sort"), strings.HasPrefix(d, "(define-fun"):
+				if len(toks) > 2 {
+					di.defs = []string{toks[2]}
+				}
+			case strings.HasPrefix(d, "(declare-datatypes"):
+				for _, t := range toks[2:] {
+					if t != "Int" && t != "Bool" && t != "Array" && t != "Real" {
+						di.defs = append(di.defs, t)
+					}
+				}
+			}
+			for _, n := range di.defs {
+				g.declNames[n] = true
+			}
+			g.declInfos = append(g.declInfos, di)
+		}
+		for i := range g.declInfos {
+			di := &g.declInfos[i]
+			seen := map[string]bool{}
+			for _, t := range tokRe.FindAllString(di.text, -1) {
+				if g.declNames[t] && !seen[t] {
+					seen[t] = true
+					di.refs = append(di.refs, t)
+				}
+			}
+		}
+	}
+	live := map[string]bool{}
+	for _, t := range tokRe.FindAllString(query, -1) {
+		if g.declNames[t] {
+			live[t] = true
+		}
+	}
+	inc := make([]bool, len(g.declInfos))
+	for changed := true; changed; {
+		changed = false
+		for i, di := range g.declInfos {
+			if inc[i] {
+				continue
+			}
+			take := false
+			if di.assert {
+				// an axiom is relevant when one of the functions/constants it constrains is used
+				for _, r := range di.refs {
+					if live[r] && !g.isSortName(r) {
+						take = true
+						break
+					}
+				}
+			} else {
+				for _, n := range di.defs {
+					if live[n] {
+						take = true
+						break
+					}
+				}
+			}
+			if take {
+				inc[i] = true
+				changed = true
+				for _, r := range di.refs {
+					live[r] = true
+				}
+			}
+		}
+	}
+	var out []string
+	for i, di := range g.declInfos {
+		if inc[i] {
+			out = append(out, di.text)
+		}
+	}
+	return out
+}
+
+func (g *Gen) isSortName(n string) bool {
+	if n == "Str" || n == "Bytes" || n == "Iface" {
+		return true
+	}
+	if _, ok := g.reg.seqs[n]; ok {
+		return true
+	}
+	if _, ok := g.reg.structs[n]; ok {
+		return true
+	}
+	return false
 }
